@@ -650,6 +650,52 @@ for _m in (0, 1):
                     only=_only, fix={'method': _m, 'text?': _t, 'stream-kind': _sk, 'status': 0, 'custom-response-type?': 1})(asgi_tail)
 
 
+# --- status helpers: finite domain, complete enumeration (run natively on the real functions) ------------------------------------------------
+
+
+@harness(PROP, 'falcon.util.misc:code_to_http_status', name='status_line_table')
+def status_line_table(v):
+    """Every status an application can set (int 100..999, a digit string, a status line, an http.HTTPStatus member, falcon's HTTP_* constants)
+    becomes a valid status line "ddd reason" carrying that code, and the integer code read back from it (what both tails branch on) is the same."""
+    if v.concrete:
+        return
+    import http
+
+    to_line = v.real('falcon.util.misc:code_to_http_status')
+    to_code = v.real('falcon.util.misc:http_status_to_code')
+    sc = v.real('falcon.status_codes')
+    bad = []
+    for code in range(100, 1000):
+        for given in (code, str(code), '%d Custom Reason' % code, ('%d Custom' % code).encode()):
+            try:
+                line = to_line(given)
+                ok = isinstance(line, str) and re.fullmatch(r'\d{3} \S.*', line) is not None and int(line[:3]) == code and to_code(given) == code and to_code(line) == code
+            except Exception as e:  # noqa: BLE001
+                ok, line = False, repr(e)
+            if not ok:
+                bad.append((given, line))
+    for m in http.HTTPStatus:
+        if not (to_line(m) == '%d %s' % (m.value, m.phrase) and to_code(m) == m.value):
+            bad.append((repr(m), to_line(m)))
+    for name in dir(sc):
+        mm = re.fullmatch(r'HTTP_(\d{3})', name)
+        if mm and not (getattr(sc, name).startswith(mm.group(1) + ' ') and to_code(getattr(sc, name)) == int(mm.group(1))):
+            bad.append((name, getattr(sc, name)))
+    v.check('every-settable-status-becomes-a-valid-status-line-with-the-same-code', not bad, first=[repr(b)[:80] for b in bad[:4]])
+    outside = []
+    for given in (99, 1000, 0, -200, '99', 'abc', '', None, 2.5, '20', b'xyz'):
+        try:
+            r = to_line(given)
+            if not (isinstance(given, float) and r.startswith('2 ')):
+                outside.append((repr(given), r))
+        except ValueError:
+            pass
+        except Exception as e:  # noqa: BLE001
+            outside.append((repr(given), repr(e)))
+    v.check('a-status-outside-100-999-is-rejected-with-ValueError', all(o[0] == '2.5' for o in outside), got=outside[:4])
+    v.cover('status-table-enumerated')
+
+
 # --- ASGI: server-sent events ---------------------------------------------------------------------------------------------------------
 
 
